@@ -47,8 +47,10 @@ fn exercise_record(what: &str, rec: &Record, n: usize) -> Check {
 /// The whole C06 oracle for one byte string.
 pub fn check_bytes(b: &[u8]) -> Check {
     crate::hang::enter(b);
+    crate::journal::publish_bytes(b);
     let r = check_bytes_inner(b);
     crate::hang::leave();
+    crate::journal::clear();
     r
 }
 
